@@ -3,7 +3,7 @@ profile's programs verbatim as workloads."""
 import importlib
 
 from ..common import Findings
-from . import progs
+from . import progs, feat_ctx
 
 CHECKS_WITH_PROFILES = ["C05", "C06", "C07", "C08", "C09", "C12", "C18"]
 
@@ -31,5 +31,9 @@ def gc_workload(rng, n):
     for i in range(n):
         name, prof = profs[i % len(profs)]
         src, mods = progs.generate(rng.fork("%s/%d" % (name, i)), prof)
+        if i % 3 == 2:
+            # every third program runs inside a stack of other features' constructs (feat_ctx)
+            src, mods, ctx = feat_ctx.nest(src, mods, rng.fork("nest/%d" % i))
+            name = "%s[%s]" % (name, ">".join(ctx))
         out.append(("%s/%d" % (name, i), src, mods))
     return out
